@@ -227,3 +227,28 @@ Fixpoint all_ok {Req Ans : Type} (okA : Req -> Ans -> bool) (rs : list Req) (al 
   | r :: rs', a :: al' => okA r a && all_ok okA rs' al'
   | _ :: _, [] => false
   end.
+
+(* ---------------------------------------------------------------- FixedSizeSmoother / OptimalSizeSmoother
+   retrospective.py FixedSizeSmoother._smooth_plates, OptimalSizeSmoother._smooth_plates: a plate is its boolean
+   selection vector over the rows of the screen (all of length screen.size):
+       for plate in screen.plates:   size < t: dropped | size == t: kept |
+                                     size > t: rng.choice(np.arange(screen.size)[plate.selection_vector], t, replace=False),
+                                               replaced by np.isin(np.arange(screen.size), chosen)
+       final = OR of the kept vectors;  screen.subset(final).to_screen()
+   (a request numpy rejects - t < 0 - raises in Python; it has no valid answer in the sense of [valid_answer]) *)
+(* np.arange(n)[v] *)
+Definition positions_of (n : Z) (v : list bool) : list Z :=
+  map fst (filter (fun jb : Z * bool => snd jb) (combine (zrange n) v)).
+(* Plate.size = np.count_nonzero(selection_vector) *)
+Definition count_true (v : list bool) : Z := zlen (filter (fun b : bool => b) v).
+(* a | b on boolean vectors of equal length *)
+Definition bor_mask (a b : list bool) : list bool := map (fun ab : bool * bool => fst ab || snd ab) (combine a b).
+
+Definition size_smoother_body (size t : Z) (v : list bool) : prog req ans (list (list bool)) :=
+  if count_true v <? t then Ret []
+  else if count_true v =? t then Ret [v]
+  else Draw (RChoice (positions_of size v) t false) (fun a => Ret [mask_of size a]).
+Definition size_smoother_prog (plates : list (list bool)) (size t : Z) : prog req ans (list bool) :=
+  bind (for_each (size_smoother_body size t) plates)
+       (fun kept => Ret (fold_left bor_mask (concat kept) (mask_zeros size))).
+Definition size_smoother_req (size t : Z) (v : list bool) : req := RChoice (positions_of size v) t false.
